@@ -27,12 +27,20 @@ Definition count_oedges (evs : list event) : nat := length (filter is_oedge evs)
 Definition shift_in {A} (x : A) (flops : list A) : list A := firstn (length flops) (x :: flops).
 
 (* ------------------------------------------------------------------ FFSynchronizer *)
-(* i, o and the flops have shape sh; the flops are reset_less (default) with initial value init. *)
+(* i, o and the flops have shape sh = i.shape() (i is any value expression, not necessarily a Signal);
+   the flops are reset_less (default).  The flops' initial value is the CONSTRUCTOR argument `init`
+   (`if init is None: init = 0`), a quantity independent of the input's own initial value i0:
+   `Signal(self.i.shape(), init=self._init)`. *)
 Record ff_state := FF { ff_in : Z; ff_flops : list Z }.
 
-Definition ff_chain (sh : shape) (stages : nat) (init : Z) : list Z := repeat (norm sh init) stages.
+(* __init__: init=None -> 0 *)
+Definition ff_ctor_init (init : option Z) : Z := match init with None => 0 | Some v => v end.
 
-Definition ff_start (sh : shape) (stages : nat) (init i0 : Z) : ff_state :=
+Definition ff_chain (sh : shape) (stages : nat) (init : option Z) : list Z :=
+  repeat (norm sh (ff_ctor_init init)) stages.
+
+(* i0 = the value of the input expression at time 0 (e.g. the init of an input Signal) *)
+Definition ff_start (sh : shape) (stages : nat) (init : option Z) (i0 : Z) : ff_state :=
   FF (norm sh i0) (ff_chain sh stages init).
 
 Definition ff_step (sh : shape) (s : ff_state) (e : event) : ff_state :=
@@ -45,7 +53,7 @@ Definition ff_step (sh : shape) (s : ff_state) (e : event) : ff_state :=
 (* m.d.comb += self.o.eq(flops[-1]) *)
 Definition ff_out (s : ff_state) : Z := last (ff_flops s) 0.
 
-Definition ff_run (sh : shape) (stages : nat) (init i0 : Z) (evs : list event) : ff_state :=
+Definition ff_run (sh : shape) (stages : nat) (init : option Z) (i0 : Z) (evs : list event) : ff_state :=
   fold_left (ff_step sh) evs (ff_start sh stages init i0).
 
 (* specification vocabulary: the input value present after the events / at each output edge *)
